@@ -13,11 +13,13 @@ use std::sync::Arc;
 
 fn openssl_verify(kind: &str, der: &[u8], spki: &[u8]) -> Option<bool> {
 	let pk = openssl::pkey::PKey::public_key_from_der(spki).ok()?;
-	match kind {
-		"cert" => openssl::x509::X509::from_der(der).ok()?.verify(&pk).ok(),
-		"csr" => openssl::x509::X509Req::from_der(der).ok()?.verify(&pk).ok(),
-		_ => openssl::x509::X509Crl::from_der(der).ok()?.verify(&pk).ok(),
-	}
+	// (an artefact OpenSSL reads but whose signature it cannot even take apart is a rejection,
+	// not an unavailable oracle)
+	Some(match kind {
+		"cert" => openssl::x509::X509::from_der(der).ok()?.verify(&pk).unwrap_or(false),
+		"csr" => openssl::x509::X509Req::from_der(der).ok()?.verify(&pk).unwrap_or(false),
+		_ => openssl::x509::X509Crl::from_der(der).ok()?.verify(&pk).unwrap_or(false),
+	})
 }
 
 struct Signer {
@@ -67,8 +69,8 @@ pub fn run(ctx: &mut Ctx) -> Report {
 	for alg in keys::build_algs() {
 		for remote in [false, true] {
 			let name = alg_name(alg).to_string();
-			if remote && name == "ecdsaP521" {
-				continue; // the harness-side ring signer has no P-521
+			if remote && name == "ecdsaP521" && !cfg!(feature = "aws") {
+				continue; // (no such algorithm on this build; on aws-lc-rs an OpenSSL key stands behind the trait)
 			}
 			let mut p = PCert::empty();
 			p.serial = Some(vec![3]);
@@ -95,9 +97,25 @@ pub fn run(ctx: &mut Ctx) -> Report {
 	// under the algorithm it reports, verifiably under the public key OpenSSL derives from
 	// the same private key
 	#[cfg(not(feature = "nocrypto"))]
+	let mut docs: Vec<(&'static SignatureAlgorithm, String, Vec<u8>)> = Vec::new();
+	#[cfg(not(feature = "nocrypto"))]
 	for alg in keys::build_algs() {
 		let name = alg_name(alg).to_string();
 		let pkcs8: Vec<u8> = if name.starts_with("rsa") { s.ctx.rsa_fixture.clone() } else { s.ctx.key(&name).serialize_der() };
+		docs.push((alg, name.clone(), pkcs8));
+		// RSA keys of the other usual modulus sizes: what a key is signed with and announced as
+		// must not depend on its size
+		if name.starts_with("rsa") {
+			for f in ["rsa3072", "rsa4096"] {
+				if let Ok(d) = std::fs::read(format!("/verif/harness/fixtures/{}.pk8", f)) {
+					docs.push((alg, format!("{}/{}", name, f), d));
+				}
+			}
+		}
+	}
+	#[cfg(not(feature = "nocrypto"))]
+	for (alg, name, pkcs8) in docs {
+		let big = name.contains('/');
 		let truth = openssl_spki_of_pkcs8(&pkcs8);
 		for (loader, res) in loaded_keys(alg, &pkcs8) {
 			s.rep.count(&format!("loaded:{}:{}", loader, if res.is_ok() { "ok" } else { "err" }));
@@ -117,7 +135,7 @@ pub fn run(ctx: &mut Ctx) -> Report {
 		// like any other key — verifiably under the public key OpenSSL derives from the private key,
 		// under the identifier it reports
 		for told in keys::build_algs() {
-			if alg_name(told) == name || (name.starts_with("rsa") && alg_name(told).starts_with("rsa")) {
+			if big || alg_name(told) == name || (name.starts_with("rsa") && alg_name(told).starts_with("rsa")) {
 				continue;
 			}
 			for (loader, res) in loaded_keys(told, &pkcs8) {
@@ -139,6 +157,8 @@ pub fn run(ctx: &mut Ctx) -> Report {
 		}
 	}
 	for sg in &signers {
+		// (the larger RSA fixtures sign slowly: two rounds each)
+		let n = if sg.p.dn.0.iter().any(|(_, v)| matches!(v, DnV::Utf8(t) if t.contains("/rsa"))) { n.min(2) } else { n };
 		for round in 0..n {
 			// --- certificate (self-signed on even rounds with this key, else issued to another key)
 			let mut p = gen_params(&mut s.rng);
